@@ -33,6 +33,12 @@ CHECKS = {
  "C08": dict(technique="explicit-state exploration of an abstract stack machine over every compiled code array (both outcomes of every conditional jump), bound to the implementation by concrete-trace containment (VerifStep)",
              text="For every accepted input of the enumerated families the main code and all nested bodies are explored exhaustively in an abstract domain (pc, stack height, saved block/template heights, dice/annotation/wod/dc state) and the well-formedness invariants are checked in every reachable abstract state, i.e. on every path rather than the path taken. Every program is then executed and each concrete VM state at every instruction boundary and sub-VM depth must lie inside the abstract reachable set, which validates the model's transfer table against rollvm.go on ~90k traces per quick run.",
              note="Heights >= 96 / detail counts >= 3 merged; transfer table restated from rollvm.go (mismatch = machinery error); zero-offset unpatched jumps are indistinguishable from legitimate zero offsets. Known finding: index/attribute/slice assignment accepted as a value.", ref="DESIGN.md §4 C08"),
+ "C05": dict(technique="complete enumeration of all 2^32 generator words through the real 32-bit face function; windowed enumeration of 64-bit words against an independent re-implementation; seeded VM streams vs an independent PCG",
+             text="For each listed n every one of the 2^32 generator words is driven through the real _roll32 (a PCG state whose next output is the word is constructed by inverting one LCG step) and the face histogram must be exactly flat with exactly the necessary rejections; the 64-bit path is compared word-for-word (face and words consumed) with an independent implementation on all words of the stated windows; whole seeded VM rolls must reproduce the faces and final state of the independent reference stream.",
+             note="The generator's statistical quality is trusted (library). 64-bit words outside the windows are not enumerated; quick covers 8 values of n, thorough ~140.", ref="DESIGN.md §4 C05"),
+ "C06": dict(technique="choice-prefix DFS over interference placements at every instruction boundary (VerifStep) + provenance of every draw (VerifRoll) + resume at every statement split",
+             text="For every program of a pool covering each randomness-reaching construct x seeds, every placement of <=2 interfering actions on other contexts / the process-wide generators at every instruction boundary of every sub-VM is executed and must leave value, detail text, draw count and final generator state unchanged; every draw must come from the context's own generator; re-seeding the process-wide generators must not matter; capture/install of the generator state must continue the identical sequence at every split of every statement list.",
+             note="Program pool and interfering-action alphabet are finite lists in c06.go; interference is injected at instruction boundaries (not inside an instruction).", ref="DESIGN.md §4 C06"),
 }
 PENDING = {}
 def main():
